@@ -196,6 +196,9 @@ func RuleSpecs(thorough bool) ([]*spec.Spec, map[string][]RuleCase) {
 			// schemas built as allOf: a flattened child (itself required, with and without prefix) and a flattened discriminated oneof
 			{"FlattenWords", "flatten", spec.M("FlattenWords", append(common(), spec.Msg("home_addr", "Addr").FlatP("home_").R("required:true"), spec.Msg("geo", "Geo").Flat().R("required:true"), spec.Msg("work_addr", "Addr").FlatP("work_"))...)},
 			{"FlatOneofWords", "flat_oneof", spec.M("FlatOneofWords", append(common(), txt(), img())...).WithOneof(&spec.Oneof{Name: "content", Config: true, Disc: "type", Flatten: true})},
+			// a flattened oneof whose variant messages have required fields of their own, beside two required common fields
+			{"FlatOneofReqWords", "flat_oneof_required", spec.M("FlatOneofReqWords", spec.F("pay_id", "string").R("required:true"), spec.F("currency_code", "string").R("required:true"), spec.F("memo_text", "string"),
+				spec.Msg("card", "CardV").In("method"), spec.Msg("bank", "BankV").In("method"), spec.Msg("cash", "CashV").In("method")).WithOneof(&spec.Oneof{Name: "method", Config: true, Disc: "type", Flatten: true})},
 			// required on fields of every structural kind
 			{"StructuralWords", "structural", spec.M("StructuralWords", append(common(), spec.Msg("main_addr", "Addr").R("required:true"), spec.F("tag_list", "string").Rep().R("required:true"),
 				spec.F("attr_map", "string").Map().R("required:true"), spec.Msg("seen_at", ".google.protobuf.Timestamp").R("required:true"), spec.F("raw_data", "bytes").R("required:true"), spec.F("is_set", "bool").R("required:true"))...)},
@@ -204,11 +207,20 @@ func RuleSpecs(thorough bool) ([]*spec.Spec, map[string][]RuleCase) {
 		presence := spec.M("PresenceWords", spec.F("nick_name", "string").Opt().R("required:true"), spec.F("plain_name", "string").R("required:true"), spec.F("free_text", "string").Opt(),
 			spec.F("email_addr", "string").In("contact").R("required:true"), spec.F("phone_no", "string").In("contact")).WithOneof(&spec.Oneof{Name: "contact"})
 		msgs := []*spec.Message{spec.M("TextContent", spec.F("body", "string")), spec.M("ImageContent", spec.F("url", "string")), spec.M("BarList", spec.F("values", "int32").Rep().Unw()), spec.M("Out", spec.F("ok", "bool")),
-			spec.M("Addr", spec.F("street", "string"), spec.F("zip", "string")), spec.M("Geo", spec.F("lat", "double"), spec.F("lon", "double"))}
+			spec.M("Addr", spec.F("street", "string"), spec.F("zip", "string")), spec.M("Geo", spec.F("lat", "double"), spec.F("lon", "double")),
+			spec.M("CardV", spec.F("card_number", "string").R("required:true"), spec.F("holder_name", "string")), spec.M("BankV", spec.F("iban_code", "string").R("required:true")),
+			spec.M("CashV", spec.F("till_no", "int32").R("required:true"), spec.F("clerk_id", "string").R("required:true"))}
 		svc := spec.Svc("RuleShapeService", "/rs")
 		for _, sh := range shapes {
 			msgs = append(msgs, sh.m)
 			svc.Methods = append(svc.Methods, spec.RPC("Check"+sh.name, sh.name, "Out", "POST", "/"+sh.key))
+			if sh.key == "flat_oneof_required" {
+				for _, fn := range []string{"pay_id", "currency_code"} {
+					cs = append(cs, RuleCase{Msg: sh.name, Field: fn, Kind: "string", Label: "rule=required,shape=" + sh.key + ",field=" + fn, Rules: "required:true"})
+				}
+				cs = append(cs, RuleCase{Msg: sh.name, Field: "memo_text", Kind: "string", Label: "rule=none,shape=" + sh.key + ",field=memo_text", Rules: ""})
+				continue
+			}
 			for _, f := range common() {
 				rule := map[string]string{"account_id": "rule=required", "display_name": "rule=min_len,bound=2", "unit_count": "rule=gt,bound=0", "currency_code": "rule=max_len,bound=5", "max_items": "rule=required"}[f.Name]
 				rules := map[string]string{"account_id": "required:true", "display_name": "string:{min_len:2}", "unit_count": "int32:{gt:0}", "currency_code": "string:{max_len:5}", "max_items": "required:true"}[f.Name]
